@@ -1024,19 +1024,23 @@ Qed.
 Inductive paired (file : str) : list fsop -> Prop :=
 | paired_nil : paired file []
 | paired_save c ops : paired file ops ->
-    paired file (OpWrite (file ++ tmp_suffix) c :: OpRename (file ++ tmp_suffix) file :: ops)
+    paired file (save_seq file c ++ ops)
 | paired_chmod p ops : paired file ops -> paired file (OpChmod p :: ops).
 
 Lemma paired_app file a b : paired file a -> paired file b -> paired file (a ++ b).
 Proof. induction 1; intro; cbn; [assumption|constructor; auto|constructor; auto]. Qed.
 
+Lemma disk_after_save_seq file c before rest :
+  disk_after file before None (save_seq file c ++ rest) = disk_after file c None rest.
+Proof. unfold save_seq. cbn [app disk_after]. rewrite !str_eqb_refl. reflexivity. Qed.
+
 Lemma disk_after_paired file ops : paired file ops -> forall before rest,
   disk_after file before None (ops ++ rest) = disk_after file (disk_after file before None ops) None rest.
 Proof.
-  induction 1 as [|c ops P IH|p ops P IH]; intros before rest; cbn [app disk_after].
+  induction 1 as [|c ops P IH|p ops P IH]; intros before rest.
   - reflexivity.
-  - rewrite !str_eqb_refl. cbn [andb]. apply IH.
-  - apply IH.
+  - rewrite <- app_assoc, !disk_after_save_seq. apply IH.
+  - cbn [app disk_after]. apply IH.
 Qed.
 
 Lemma changed_files_single file ls : Forall (fun l => l_file l = file) ls ->
@@ -1056,7 +1060,7 @@ Lemma save_ops_single o file ls :
   o_autofix o = true -> Forall (fun l => l_file l = file) ls ->
   fst (save o ls) =
     if existsb line_modified ls
-    then [OpWrite (file ++ tmp_suffix) (file_content file ls); OpRename (file ++ tmp_suffix) file]
+    then save_seq file (file_content file ls)
     else [].
 Proof.
   intros Ha F. unfold save. rewrite Ha. cbn [negb fst].
@@ -1178,7 +1182,7 @@ Proof.
   rewrite (file_content_blocks file) by (apply I1).
   rewrite disk_after_paired by exact P1.
   destruct (existsb line_modified (s_store s1)) eqn:M.
-  - cbn [disk_after]. rewrite !str_eqb_refl. reflexivity.
+  - rewrite <- (app_nil_r (save_seq _ _)), disk_after_save_seq. reflexivity.
   - cbn [disk_after]. rewrite (Cl1 eq_refl).
     rewrite (unmodified_content file (s_store s1) (inv_file _ _ _ I1) (inv_unmod _ _ _ I1) M). exact Rw1.
 Qed.
